@@ -367,3 +367,87 @@ def save_replay(pid, obj):
     with open(p, "w") as f:
         json.dump(obj, f, indent=1, sort_keys=True)
     return p
+
+
+# ---------------------------------------------------------------- trace validation
+def write_trace_file(path, results, reset=None):
+    reset = reset or {"a": "reset", "p": ""}
+    n = 0
+    with open(path, "w") as f:
+        first = True
+        for r in results:
+            if not first:
+                rr = dict(reset)
+                rr["case"] = r["id"]
+                f.write(json.dumps(rr) + "\n")
+                n += 1
+            first = False
+            for e in r["events"]:
+                e = dict(e)
+                e["case"] = r["id"]
+                f.write(json.dumps(e) + "\n")
+                n += 1
+    return n
+
+
+def validate_traces_generic(wd, name, trace_module, consts, results, invariants, timeout=600, reset=None):
+    """TLC checks that every recorded execution is a behaviour of the spec (trace_module).
+    Returns dict(accepted=[ids], rejected=[(id, step, line)], states=n, inv_violations=[...])."""
+    todo = [r for r in results if r.get("events")]
+    accepted, rejected, invviol = [], [], []
+    states = 0
+    rounds = 0
+    while todo:
+        rounds += 1
+        if rounds > 25:
+            raise Inconclusive("trace validation of %s needs more than 25 rounds" % name)
+        tf = os.path.join(wd, "%s-trace-%d.ndjson" % (name, rounds))
+        nlines = write_trace_file(tf, todo, reset)
+        cfg_lines = ["SPECIFICATION TraceSpec", "CONSTRAINT Mark", "POSTCONDITION TraceAccepted"]
+        if invariants:
+            cfg_lines.append("INVARIANTS " + " ".join(invariants))
+        cfg_lines.append("CHECK_DEADLOCK FALSE")
+        write_mc(wd, name, trace_module, consts, cfg_lines)
+        res = run_tlc(wd, name, workers=1, timeout=timeout, env={"TRACE_FILE": tf})
+        if res.get("fatal") and not res["postcondition_false"] and not res["violated"]:
+            tlc_must(res)
+        states += res.get("distinct", 0)
+        m = re.search(r'"HIGHWATER", (\d+)', res["out"])
+        hw = int(m.group(1)) if m else None
+        os.remove(tf)
+        if res["violated"] and res["violated"] != "temporal":
+            # an invariant failed on a real execution: find the case from the trace position
+            lm = re.findall(r"/\\ l = (\d+)", res["out"])
+            line = int(lm[-1]) if lm else 1
+            bad, step = case_at(todo, line - 1)
+            invviol.append((bad["id"], step, res["violated"]))
+            # keep validating the step relation without the invariant that failed
+            invariants = [i for i in invariants if i != res["violated"]]
+            continue
+        if hw is None:
+            raise Inconclusive("trace validation of %s: no high-water mark in TLC output\n%s" % (name, res["out"][-1500:]))
+        if hw >= nlines + 1:
+            accepted += [r["id"] for r in todo]
+            break
+        # line hw (1-based) was not matched
+        bad, step = case_at(todo, hw)
+        rejected.append((bad["id"], step, hw))
+        idx = todo.index(bad)
+        accepted += [r["id"] for r in todo[:idx]]
+        todo = todo[idx + 1:]
+    return {"accepted": accepted, "rejected": rejected, "states": states, "inv_violations": invviol}
+
+
+def case_at(results, line):
+    """Which case contains 1-based trace line `line` and which step of it."""
+    pos = 0
+    first = True
+    for r in results:
+        if not first:
+            pos += 1
+        first = False
+        n = len(r["events"])
+        if line <= pos + n:
+            return r, line - pos
+        pos += n
+    return results[-1], len(results[-1]["events"])
